@@ -245,6 +245,23 @@ def run(repo, rep, tier):
                                             f"override what the record provides: a field named like a pre-loaded name (e, pi, gamma, ...) evaluates to "
                                             f"the constant/function instead of the record's value, so the string quantity differs from the equivalent "
                                             f"Python function on dict records", stmt=f"namespace precedence: {norm(bad)[:50]}")
+    # every field of the record is a variable of the expression: the namespace is updated with the record's own mapping, never with
+    # a filtered copy of it (a field called `_pt` is as good a variable as `pt`)
+    for inner in ast.walk(uc.node):
+        if not (isinstance(inner, ast.FunctionDef) and inner is not uc.node):
+            continue
+        dparam = inner.args.args[0].arg if inner.args.args else None
+        for cl in ast.walk(inner):
+            if isinstance(cl, ast.Call) and isinstance(cl.func, ast.Attribute) and cl.func.attr == "update" and cl.args:
+                a0 = cl.args[0]
+                if isinstance(a0, (ast.DictComp, ast.GeneratorExp, ast.ListComp)) and dparam and any(
+                        isinstance(x, ast.Name) and x.id == dparam for g0 in a0.generators for x in ast.walk(g0.iter)):
+                    filt = [c0 for g0 in a0.generators for c0 in g0.ifs]
+                    r4.ob(not filt, f"namespace update from the record `{ast.unparse(a0)[:50]}` is unfiltered")
+                    if filt:
+                        rep.finding("R17.4", uc, cl, f"`{ast.unparse(cl)[:90]}` copies only the fields that satisfy `{ast.unparse(filt[0])[:40]}` into the "
+                                    f"evaluation namespace: a string expression that refers to one of the other fields raises NameError (or sees a "
+                                    f"pre-loaded name) where the equivalent Python function reads the field", stmt="record fields filtered before evaluation")
     # the single free variable of a string expression on a bare datum: every name of the code object that the namespace does not
     # provide - nothing else may be taken out (a datum variable called like a builtin, `sum`, `int`, ..., is still the variable)
     for inner in ast.walk(uc.node):
@@ -398,10 +415,13 @@ def wrapper_outcomes(fnode, param, kind, subclass_of):
         elif isinstance(target, (ast.Tuple, ast.List)) and isinstance(value, (ast.Tuple, ast.List)) and len(target.elts) == len(value.elts):
             for t, v in zip(target.elts, value.elts):
                 bind(t, v, env)
+        elif isinstance(target, ast.Attribute) and isinstance(target.value, ast.Name) and target.value.id == param:
+            mutations.append(target)       # the wrapper writes into the object it was given
         else:
             raise _Unsupported(f"assignment to {ast.unparse(target)}")
 
     out = []
+    mutations = []
 
     def block(stmts, env, trace):
         """returns list of (env, trace) that fall through"""
@@ -437,6 +457,8 @@ def wrapper_outcomes(fnode, param, kind, subclass_of):
 
     for env, trace in block([b for b in fnode.body], {}, []):
         out.append(("return", ast.Constant(value=None), trace))
+    for t in mutations:
+        out.append(("mutates", t, []))
     return out
 
 
@@ -483,6 +505,14 @@ def wrapper_rules(repo, rep, r3, um):
     def returns(res, kind):
         return [(v, tr) for what, v, tr in res[kind] if what == "return"]
 
+    def no_mutation(f, res, who):
+        muts = sorted({ast.unparse(v) for kind in KINDS for what, v, _ in res[kind] if what == "mutates"})
+        r3.ob(not muts, f"{who}() does not modify the object it is given")
+        for m0 in muts:
+            rep.finding("R17.3", f, f.node, f"{who}() assigns `{m0}` on the wrapper it was given instead of building a new one: the caller's own wrapper "
+                        f"(and every aggregator that already uses it) is renamed behind its back, and a later first name on it raises",
+                        stmt=f"{who} mutates its argument ({m0})")
+
     def is_ctor(v, cls, want):
         c = _ctor(v, ip)
         if c is None or c[0] != cls:
@@ -495,6 +525,7 @@ def wrapper_rules(repo, rep, r3, um):
     # ---- serializable: an existing wrapper (of either kind) is returned as it is; anything else is wrapped once
     p = ser.params[0]
     res = outcomes(ser, p)
+    no_mutation(ser, res, "serializable")
     for kind in ("CachedFcn", "UserFcn"):
         rs = returns(res, kind)
         ok = bool(rs) and all(isinstance(v, ast.Name) and v.id == p for v, _ in rs)
@@ -511,6 +542,7 @@ def wrapper_rules(repo, rep, r3, um):
     # ---- cached
     p = cac.params[0]
     res = outcomes(cac, p)
+    no_mutation(cac, res, "cached")
     rs = returns(res, "CachedFcn")
     ok = bool(rs) and all(isinstance(v, ast.Name) and v.id == p for v, _ in rs)
     r3.ob(ok, "cached(CachedFcn instance) returns it unchanged")
@@ -534,6 +566,7 @@ def wrapper_rules(repo, rep, r3, um):
     # ---- named
     nm_p, fn_p = nam.params[0], nam.params[1]
     res = outcomes(nam, fn_p)
+    no_mutation(nam, res, "named")
     guard = None
     for kind in ("CachedFcn", "UserFcn"):
         # a second name raises before anything is returned: one undecided test mentions `fcn.name is not None`, raises on one
